@@ -175,10 +175,17 @@ def _fl(x):
 def _vec(inputs, k):
     from scenic.core.vectors import Vector
 
-    return Vector(*[float(c) for c in inputs[k]])
+    return Vector(*[float(c) for c in inputs.get(k, [1.0, -2.0, 0.5] if k == "self" else [0.25, 3.0, -1.5])])
 
 
 ROTATION_CATALOGUE = [(0.0, 0.0, 0.0), (math.pi / 2, 0.0, 0.0), (-math.pi / 2, 0.0, 0.0), (math.pi, 0.0, 0.0), (0.0, math.pi / 2, 0.0), (0.7, 0.4, -0.3), (2.5, -1.1, 0.9)]
+
+
+def catalogue(clause, full=None):
+    """rotations to try: the whole concretisation catalogue when hunting for a failing input of a refuted obligation,
+    two representative ones (yaw 90 deg, a generic 3-D rotation) in the routine cross-check of proved contracts"""
+    full = ROTATION_CATALOGUE if full is None else full
+    return [full[1], full[5]] if clause == "*" and len(full) > 5 else full
 
 
 def _orientations(inputs, key):
@@ -260,7 +267,7 @@ def register_vector_algebra(reg):
         check("scales_every_coordinate", eq3(co(res), [x * k for x in a]))
 
     def replay_mul(inputs, clause):
-        a, k = _vec(inputs, "self"), _fl(inputs["other"])
+        a, k = _vec(inputs, "self"), _fl(inputs.get("other", 2.0))
         r = a * k
         if not all(_close(p, q * k) for p, q in zip(r, a)):
             return f"{a!r} * {k} = {r!r}"
@@ -272,7 +279,7 @@ def register_vector_algebra(reg):
         check("divides_every_coordinate", eq3([x * k for x in co(res)], a))
 
     def replay_div(inputs, clause):
-        a, k = _vec(inputs, "self"), _fl(inputs["other"])
+        a, k = _vec(inputs, "self"), _fl(inputs.get("other", 2.0))
         try:
             r = a / k
         except ZeroDivisionError:
@@ -386,7 +393,7 @@ def register_vector_algebra(reg):
         check("plus_y_turns_toward_minus_x", z3.Implies(z3.And(a[0] == 0, a[1] == 1), z3.And(r[0] == -SIN(t), r[1] == COS(t))))
 
     def replay_rot_angle(inputs, clause):
-        a, t = _vec(inputs, "self"), _fl(inputs["angleOrOrientation"])
+        a, t = _vec(inputs, "self"), _fl(inputs.get("angleOrOrientation", 0.7))
         r, want = a.rotatedBy(t), ccw_f(t, a)
         if not all(_close(p, q) for p, q in zip(r, want)):
             return f"{a!r}.rotatedBy({t}) = {r!r}, counter-clockwise rotation gives {want}"
@@ -419,7 +426,7 @@ def register_vector_algebra(reg):
         check("self_plus_offset_turned_counter_clockwise", eq3(co(res), [x + y for x, y in zip(a, ccw(t, o))]))
 
     def replay_off_rot(inputs, clause):
-        a, t, o = _vec(inputs, "self"), _fl(inputs["angleOrOrientation"]), _vec(inputs, "offset")
+        a, t, o = _vec(inputs, "self"), _fl(inputs.get("angleOrOrientation", 0.7)), _vec(inputs, "offset")
         r, want = a.offsetRotated(t, o), [x + y for x, y in zip(a, ccw_f(t, o))]
         if not all(_close(p, q) for p, q in zip(r, want)):
             return f"{a!r}.offsetRotated({t}, {o!r}) = {r!r}, expected {want}"
@@ -456,7 +463,7 @@ def register_vector_algebra(reg):
         check("offset_along_heading_z", r[2] == a[2])
 
     def replay_off_rad(inputs, clause):
-        a, rad, h = _vec(inputs, "self"), _fl(inputs["radius"]), _fl(inputs["heading"])
+        a, rad, h = _vec(inputs, "self"), _fl(inputs.get("radius", 2.0)), _fl(inputs.get("heading", 0.7))
         r = a.offsetRadially(rad, h)
         want = (a.x - rad * math.sin(h), a.y + rad * math.cos(h), a.z)
         if not all(_close(p, q) for p, q in zip(r, want)):
@@ -979,7 +986,7 @@ def make_replay_directional(fname):
         tk, dk = inputs.get("case", "Object/none").split("/")
         Ds = [float(inputs.get("D", 1.5)), 1.5, -0.25]
         Dvecs = [[float(c) for c in inputs.get("Dvec", [1.0, 2.0, 3.0])], [1.0, 2.0, 3.0]]
-        for k, e in enumerate(ROTATION_CATALOGUE):
+        for k, e in enumerate(catalogue(clause)):
             r = one(inputs, tk, dk, Ds[min(k, len(Ds) - 1)] if k < len(Ds) else Ds[1], Dvecs[min(k, 1)], e)
             if r:
                 return r
@@ -1062,8 +1069,8 @@ def register_facing(reg):
         from scenic.core.vectors import Orientation
 
         kind = inputs.get("case", "orientation")
-        for pe in ROTATION_CATALOGUE:
-            for te in ROTATION_CATALOGUE[1:6]:
+        for pe in catalogue(clause):
+            for te in catalogue(clause, ROTATION_CATALOGUE[1:7]):
                 if kind == "heading":
                     h = float(inputs.get("heading", 0.5)) or 0.5
                     tgt, want = repr(h), Orientation.fromEuler(h, 0, 0)
@@ -1071,7 +1078,7 @@ def register_facing(reg):
                     tgt, want = _tup(te), Orientation.fromEuler(*te)
                 if kind == "field":
                     text = f"vf = VectorField('f', lambda pos: Orientation.fromEuler{_tup(te)})\nego = new Object at (5, 6, 7), with parentOrientation {_tup(pe)}, facing vf\n"
-                    text = "from scenic.core.vectors import Orientation\n" + text
+                    text = "from scenic.core.vectors import Orientation, VectorField\n" + text
                 else:
                     text = f"ego = new Object at (5, 6, 7), with parentOrientation {_tup(pe)}, facing {tgt}\n"
                 o = _scenic_scene(text).objects[0]
@@ -1134,7 +1141,7 @@ def register_facing(reg):
             for t, p in cands:
                 if _close(t[0], p[0]) and _close(t[1], p[1]):
                     continue
-                for pe in ROTATION_CATALOGUE:
+                for pe in catalogue(clause):
                     text = f"ego = new Object at {_tup(p)}, with parentOrientation {_tup(pe)}, {syntax} {_tup(t)}\n"
                     o = _scenic_scene(text).objects[0]
                     d = [a - b for a, b in zip(p, t)] if away else [a - b for a, b in zip(t, p)]
@@ -2155,7 +2162,7 @@ def register_orientation_algebra(reg):
         if k == "heading":
             r, want = Orientation._coerce(float(t)), Orientation.fromEuler(float(t), 0, 0)
         elif k in ("tuple", "vector"):
-            e = [float(c) for c in t]
+            e = [float(c) for c in (t if isinstance(t, (list, tuple)) else [0.5, 0.2, -0.4])]
             r, want = Orientation._coerce(tuple(e) if k == "tuple" else Vector(*e)), Orientation.fromEuler(*e)
         else:
             return None
